@@ -3,7 +3,7 @@
 #   tools/seedtest.sh <patch.diff> <tier> <ID> [<ID> ...]
 # Creates a scratch worktree of /repo's HEAD, applies the patch, runs the checks with VERIF_REPO pointing at it
 # and evidence/replays redirected to a scratch directory, prints one line per check, removes everything.
-PATCH=$1; TIER=$2; shift 2
+PATCH=$(readlink -f "$1"); TIER=$2; shift 2
 W=$(mktemp -d /tmp/vf-seed.XXXXXX) || exit 2
 trap 'git -C /repo worktree remove --force "$W/tree" >/dev/null 2>&1; rm -rf "$W"' EXIT
 git -C /repo worktree add -q --detach "$W/tree" HEAD || exit 2
